@@ -163,6 +163,28 @@ def bandVerdicts (args : List String) (res : Option (List String)) : List (Strin
                  | some i => if matching.contains i then [] else [("C13", "data-rate-index-does-not-match-the-parameters")]
                  | none => [])
              | _, _, _, _, _, _, _, _ => [])
+          | "defaults" =>
+            -- C13: RX2 defaults are the Regional Parameters values
+            (match Spec.regionDefaults cfg.name, out with
+             | some d, f :: r :: _ =>
+               (if f.toNat? == some d.rx2Freq then [] else [("C13", "rx2-default-frequency-differs-from-regional-parameters")]) ++
+               (if r.toInt? == some d.rx2DR then [] else [("C13", "rx2-default-data-rate-differs-from-regional-parameters")])
+             | _, _ => [])
+          | "txpow" =>
+            -- C13: TX-power table: steps of -2 dB, as many as the region defines
+            (match Spec.regionDefaults cfg.name, ai 0, out with
+             | some d, some i, [r] =>
+               if 0 ≤ i && i < d.txPowerSteps then (if r.toInt? == some (-2 * i) then [] else [("C13", "tx-power-offset-is-not-minus-2-dB-per-step")])
+               else if r == "ERR" then [] else [("C13", "tx-power-index-beyond-the-regional-table-accepted")]
+             | _, _, _ => [])
+          | "dr" =>
+            -- C13: LoRa data-rate definitions (spreading factor, bandwidth) are the Regional Parameters values
+            (match ai 0, out with
+             | some i, [_, _, m, sf, bw, _, _, _] =>
+               (match Spec.loraDR cfg.family i with
+                | some (wsf, wbw) => if m == "0" && sf.toInt? == some wsf && bw.toInt? == some wbw then [] else [("C13", "data-rate-definition-differs-from-regional-parameters")]
+                | none => if m == "0" then [("C13", "lora-data-rate-the-region-does-not-define")] else [])
+             | _, _ => [])
           | "maxpl" =>
             (match out with
              | [m, n] =>
@@ -213,6 +235,13 @@ def bandVerdicts (args : List String) (res : Option (List String)) : List (Strin
                (match parseIntList all, parseIntList std, parseIntList cus, parseIntList en, parseIntList dis with
                 | some all, some std, some cus, some en, some dis =>
                   let part (x y : List Int) := sortedInts (x ++ y) == all && x.all (fun c => !y.contains c)
+                  -- C13: with no history, the channels are the region's default uplink frequencies
+                  (match Spec.regionDefaults cfg.name with
+                   | some d =>
+                     if hist != "-" then [] else
+                     let fs := (if up == "-" then [] else up.splitOn ";").map fun t => ((t.splitOn ":")[0]?).bind String.toNat?
+                     if fs == d.upFreqs.map some then [] else [("C13", "default-uplink-frequencies-differ-from-regional-parameters")]
+                   | none => []) ++
                   (if part en dis then [] else [("C15", "enabled-disabled-do-not-partition-channels")]) ++
                   (if part std cus then [] else [("C15", "standard-custom-do-not-partition-channels")]) ++
                   -- standard channels are never altered: the initial prefix keeps frequency / DR range / custom flag
@@ -562,7 +591,18 @@ def verdicts (st : DState) (op : String) (args : List String) (goRes : String) :
                 | .channels fs => fs.length == 5 && l.typ != 1
                 | .masks ms => l.typ == 1 && (ms.isEmpty || ms.getLast? != some 0))
             (match res with
-             | some (_ :: "|" :: out) => if !canonical || out == (fmtFrame p).splitOn " " then [] else [("C01", "join-accept-payload-does-not-decode-to-itself")]
+             | some (encTok :: "|" :: out) =>
+               (if !canonical || out == (fmtFrame p).splitOn " " then [] else [("C01", "join-accept-payload-does-not-decode-to-itself")]) ++
+               -- C06, payload level: the encoder's bytes are the layout's, and the decoded fields are the layout fields of those bytes
+               (match unhx encTok with
+                | some eb =>
+                  (match Spec.payloadBytes (.joinAccept ja) with
+                   | some sb => if sb == eb then [] else [("C06", "frame-bytes-differ-from-layout-spec")]
+                   | none => []) ++
+                  (match (parseArgs out frame).bind (fun q => q.payload.bind Spec.payloadBytes) with
+                   | some sb => if sb == eb then [] else [("C06", "decoded-fields-are-not-the-layout-fields-of-the-input")]
+                   | none => [])
+                | none => [])
              | _ => [])
           | _ => [])
        | none => [])
@@ -616,14 +656,14 @@ def verdicts (st : DState) (op : String) (args : List String) (goRes : String) :
             match unhx bsHex with
             | some bs =>
               let fcnt := h.fCnt
-              let (lp', hi, _) := tamperOf t lp (fcnt &&& 0xffff0000#32) []
+              let (lp', hi, _) := if otherDirOf t then (lp, fcnt &&& 0xffff0000#32, []) else tamperOf t lp (fcnt &&& 0xffff0000#32) []
               (match PHY.dec bs with
                | .ok q => (match q.payload with
                  | some (.mac hq _ _) =>
                    let fc := hi ||| (hq.fCnt &&& 0xffff#32)
                    let msg := bs.take (bs.length - 4)
                    let mic := bs.drop (bs.length - 4)
-                   let want := if isUpData q.mtype then Spec.micUp E (lp'.ver != 0) lp'.conf lp'.txDr lp'.txCh lp'.fKey lp'.sKey hq.devAddr fc hq.fCtrl.ack msg
+                   let want := if isUpData q.mtype != otherDirOf t then Spec.micUp E (lp'.ver != 0) lp'.conf lp'.txDr lp'.txCh lp'.fKey lp'.sKey hq.devAddr fc hq.fCtrl.ack msg
                                else Spec.micDown E (lp'.ver != 0) lp'.conf lp'.sKey hq.devAddr fc hq.fCtrl.ack msg
                    let canonical := (bs.getD 0 0) &&& 0x1c#8 == 0#8
                    if !canonical then [] else
